@@ -74,7 +74,7 @@ def run_unit(u, tier, root, build):
     env = dict(os.environ)
     env.update(KANI_ENV)
     # extracted std-only crates share one target dir (kani's library is built once)
-    env['CARGO_TARGET_DIR'] = os.path.join(build, 'kani', u['name'] if u.get('mode') == 'inplace' else '_shared')
+    env['CARGO_TARGET_DIR'] = os.path.join(build, 'kani', u.get('target_group', u['name']) if u.get('mode') == 'inplace' else '_shared')
     rf = (u.get('rustflags', '') + ' ' + u.get('tier_rustflags', {}).get(tier, '')).strip()
     if rf:
         env['RUSTFLAGS'] = rf
